@@ -84,3 +84,8 @@ func VerifProgramExprs(p Program) []*LVal { return p.exprs }
 
 // VerifMaxSteps returns the configured per-evaluation step budget.
 func VerifMaxSteps(r *Runtime) int64 { return r.maxSteps }
+
+// VerifAdvanceGenSym moves the runtime's gensym counter forward by n, as if n
+// symbols had been generated: the counter is the only state GenSym keeps, so
+// a monitor can reach the state after a long history without replaying it.
+func VerifAdvanceGenSym(r *Runtime, n uint) { r.numsym.Add(n) }
